@@ -11,10 +11,13 @@ For normalised times (0 ≤ usec < 1000000):
 * `remaining_reaches_deadline`: now + time left = deadline for a deadline not yet passed (sleeping it out lands on the deadline);
 * `remaining_antitone_now` / `remaining_monotone_deadline`: the time left never grows as the clock advances and is ordered like
   the deadlines (the earliest deadline gives the shortest sleep);
+* `sleep_ms_covers_deadline`: the event thread's millisecond expression (Generated/EvTimeout.lean) applied to the time left ends
+  the sleep strictly after the deadline and at most 1 ms late;
 * `remaining_after_elapsed`: asking again after d microseconds gives exactly max(0, left - d) — an early wake-up neither loses
   nor gains time.
 -/
 import CaresModel.Generated.Timeval
+import CaresModel.Generated.EvTimeout
 namespace Cares.C07c
 open Cares.Generated.Timeval
 
@@ -97,6 +100,20 @@ theorem remaining_after_elapsed (ns nu ns' nu' ts tu : Int) (hn : Norm nu) (hn' 
       max 0 (us (remaining ns nu ts tu).1 (remaining ns nu ts tu).2 - (us ns' nu' - us ns nu)) := by
   have hv := remaining_value ns nu ts tu hn ht
   have hv' := remaining_value ns' nu' ts tu hn' ht
+  omega
+
+/-- the two regenerated pieces composed as the event thread composes them: the millisecond value it hands to the backend
+    (`timeoutMs`, re-extracted from ares_event_thread()) applied to the time left (`remaining`, re-extracted from
+    ares_timeval_remaining()) wakes the thread strictly after the deadline (no spinning just before it) and at most one
+    millisecond late, in microseconds, for every normalised clock reading and deadline -/
+theorem sleep_ms_covers_deadline (ns nu ts tu : Int) (hn : Norm nu) (ht : Norm tu) :
+    let r := remaining ns nu ts tu
+    let ms : Int := (Cares.Generated.Ev.timeoutMs r.1.toNat r.2.toNat : Nat)
+    max (us ts tu) (us ns nu) < us ns nu + ms * 1000 ∧ us ns nu + ms * 1000 ≤ max (us ts tu) (us ns nu) + 1000 := by
+  have hv := remaining_value ns nu ts tu hn ht
+  have hz := remaining_normalised ns nu ts tu hn ht
+  unfold Norm us at *
+  simp only [Cares.Generated.Ev.timeoutMs]
   omega
 
 /-! non-vacuity, incl. the case of seed C07-4: deadline in an earlier second with a larger microsecond part -/
